@@ -555,6 +555,9 @@ example : ((spCfg?).bind fun c => geoMatW c ex (coordLen ex) true true .npInf (.
     some ([3], [[some 6, some 3, some 0, none, none]]) := by decide
 example : geoMatW exCfg ex (coordLen ex) true false .pyNone (.list [7]) = none := by decide
 example : ((adjMatW .ge 0 ex).get? 3 2, (adjMatW .ge 0 ex).get? 2 3, (adjMatW .ge 0 ex).get? 9 9) = (some true, some false, some false) := by decide
+/-- `sort=True` on a forest (two roots; navis sorts tree by tree since the `node_label_sorting` fix): same relation. -/
+example : ((adjSorted .ge 0 ex [1, 2, 4, 3, 9]).rows, (adjSorted .ge 0 ex [1, 2, 4, 3, 9]).get? 4 2, (adjSorted .ge 0 ex [1, 2, 4, 3, 9]).get? 9 1) =
+    ([1, 2, 4, 3, 9], some true, some false) := by decide
 example : (distalW ex (.list [4, 3]) .none).vals = [[true, true, true, false, false], [true, true, false, true, false]] := by decide
 example : dictGet (distToRootW ex (coordLen ex)) 4 = some 7 ∧ dictGet (distToRootW ex (coordLen ex)) 9 = some 0 := by decide
 example : segLenW ex (coordLen ex) [4, 2, 1] = some 7 ∧ segLenW ex (coordLen ex) [4, 3] = none := by decide
